@@ -6,7 +6,7 @@ git -C /repo worktree add -q --detach $WT HEAD || exit 2
 git -C $WT apply /verif/seeded/$ID/patch.diff || { git -C /repo worktree remove --force $WT; exit 2; }
 mkdir -p $WT/_seed && cp /verif/seeded/$ID/demo*.py $WT/_seed/
 DEMO=$(ls $WT/_seed/demo*.py | head -1)
-B=$(/tmp/seedtools/run_baseline.py $WT | head -1)
+B=$(/verif/dev/run_baseline.py $WT | head -1)
 (cd /tmp && PYTHONPATH=$WT/src timeout 600 /venv/bin/python $DEMO >/dev/null 2>&1); W=$?
 git -C $WT checkout -- src
 (cd /tmp && PYTHONPATH=$WT/src timeout 600 /venv/bin/python $DEMO >/dev/null 2>&1); O=$?
